@@ -154,6 +154,24 @@ def _reviewed(v: "FnView") -> dict | None:
     return _REVIEWED.get(v.fn.key)
 
 
+def reshaped(prog: Program, key: str) -> bool:
+    """The control skeleton of the function differs from the reviewed tree's (norm.shape_of): the
+    reviewed instances of the tables are not comparable statement by statement."""
+    global _REVIEWED
+    if _REVIEWED is None:
+        import json
+        import os
+
+        pth = os.path.join(os.path.dirname(os.path.dirname(os.path.abspath(__file__))), "selftest", "reviewed_shape.json")
+        _REVIEWED = json.load(open(pth)) if os.path.exists(pth) else {}
+    rv = _REVIEWED.get(key)
+    if rv is None or "shape" not in rv or key not in prog.funcs:
+        return False
+    from .norm import shape_of
+
+    return shape_of(prog.funcs[key].node) != rv["shape"]
+
+
 def new_helpers(v: "FnView") -> list:
     """Functions of the same module that the function calls by plain name and that the reviewed
     tree did not have (an extracted helper).  Their statements belong to the reviewed function."""
@@ -238,7 +256,7 @@ def vanished(v: "FnView", fact: str) -> set[str]:
     # directly no longer contains them
     subs = getattr(v, "_subs_cache", None)
     if subs is None:
-        subs = {"".join(src(n).split()) for n in ast.walk(v.fn.node) if isinstance(n, ast.Subscript) and isinstance(n.value, ast.Name) and isinstance(n.slice, (ast.Name, ast.Constant))}
+        subs = {"".join(src(n).split()) for root in [v.fn.node, *v.res.defs.values()] for n in ast.walk(root) if isinstance(n, ast.Subscript) and isinstance(n.value, ast.Name) and isinstance(n.slice, (ast.Name, ast.Constant))}
         v._subs_cache = subs  # type: ignore[attr-defined]
     rv = _reviewed(v)
     if rv is not None and "locals" in rv:
@@ -284,7 +302,18 @@ def _node_facts(v: FnView) -> list:
     from .norm import facts as _facts
 
     out = []
+    from .cfg import range_facts
+
     for n in v.cfg.nodes:
+        if n.kind == "for-next" and isinstance(n.node, (ast.For, ast.AsyncFor)):
+            fs = set()
+            for e, o in range_facts(n.node):
+                fs |= set(_facts(e, o))
+                for d in (1, 2, 8):
+                    fs |= set(_facts(e, o, v.res.src_at(d)))
+            if fs:
+                out.append((n, fs, {alpha(f, v.locals) for f in fs}))
+            continue
         if n.kind in ("T", "F") and isinstance(n.node, ast.expr):
             fs = set(_facts(n.node, n.kind == "T"))
             for d in (1, 2, 3, 4, 8):
@@ -296,6 +325,12 @@ def _node_facts(v: FnView) -> list:
             h = inline_helper(v.prog, v.fn.module.rel, n.node)
             if h is not None:
                 fs |= set(_facts(h, n.kind == "T"))
+            rexp = reach_expr(v, n.cond or n, n.node)
+            if rexp is not None:
+                # a name with several assignments of which exactly one reaches this test
+                fs |= set(_facts(rexp, n.kind == "T"))
+                for d in (1, 2, 8):
+                    fs |= set(_facts(rexp, n.kind == "T", v.res.src_at(d)))
             if any(isinstance(x, ast.NamedExpr) for x in ast.walk(n.node)):
                 # `(x := e)` tests e: the facts of the expression with the binding replaced by its value
                 from .norm import clone
@@ -311,6 +346,46 @@ def _node_facts(v: FnView) -> list:
             out.append((n, fs, {alpha(f, v.locals) for f in fs}))
     v._nf_cache = out  # type: ignore[attr-defined]
     return out
+
+
+def reach_expr(v: FnView, at, e: ast.expr, depth: int = 2) -> ast.expr | None:
+    """`e` with every name that the flow-insensitive resolver leaves alone (several assignments)
+    but of which exactly one simple assignment `x = d` reaches the CFG node `at`, replaced by `d`
+    (itself resolved at the assignment).  None when nothing was replaced."""
+    from .norm import clone
+
+    rd = v.cfg.reaching_defs()
+    here = rd.get(at)
+    if here is None:
+        return None
+    changed = False
+
+    def subst(x: ast.expr, where, dep: int) -> ast.expr:
+        nonlocal changed
+        defs_here = rd.get(where, {})
+
+        class T(ast.NodeTransformer):
+            def visit_Name(self, node: ast.Name) -> ast.AST:
+                nonlocal changed
+                if isinstance(node.ctx, ast.Load) and node.id not in v.res.defs:
+                    ds = defs_here.get(node.id)
+                    if ds is not None and len(ds) == 1:
+                        d = next(iter(ds))
+                        if isinstance(d, (ast.Assign, ast.AnnAssign)) and d.value is not None and dep > 0:
+                            dn = v.cfg.stmt_node.get(id(d))
+                            # a definition in terms of the name itself (`x = x.first_child`) is not a value
+                            if dn is not None and not any(isinstance(y, ast.Name) and y.id == node.id for y in ast.walk(d.value)):
+                                changed = True
+                                return subst(clone(d.value), dn, dep - 1)
+                return node
+
+            def visit_Lambda(self, node: ast.Lambda) -> ast.AST:
+                return node
+
+        return T().visit(clone(x))
+
+    out = subst(e, at, depth)
+    return ast.fix_missing_locations(out) if changed else None
 
 
 def _node_disjunctions(v: FnView) -> list:
@@ -486,7 +561,9 @@ def need_holds(v: FnView, node: ast.AST, alts: list[str], raw: bool = False, non
     tn = v.cfg.node_for(node)
     if tn is None:
         raise AnalysisError(f"no CFG node for `{src(node)[:60]}` in {v.fn.key}")
-    through = [x for x in through if x is not tn]
+    from .cfg import _inside
+
+    through = [x for x in through if x is not tn and not (x.kind == "for-next" and not _inside(node, x.node.body))]
     return bool(through) and v.cfg.must_pass(tn, through, nonnull)
 
 
